@@ -515,13 +515,37 @@ type scheduler struct {
 	events chan event
 	free   atomic.Bool // pass everything through
 	saveQ  []*task     // tasks whose Save request is being served / waiting, in order (one SaveWriter goroutine)
+	lost   []string    // departures of the code from the model's step structure (drift)
+	broken bool        // the forced schedule was given up: everything runs freely, the case is cut short
+}
+
+// giveUp abandons the forced schedule: every parked goroutine is released and nothing parks any more.
+func (s *scheduler) giveUp(why string, tasks ...*task) {
+	s.broken = true
+	s.lost = append(s.lost, why)
+	s.free.Store(true)
+	for _, t := range tasks {
+		if t != nil {
+			s.kick(t)
+		}
+	}
 }
 
 // owner of an event seen while `running` is the task being advanced: the change-log append points are reached by the
 // SaveWriter goroutine on behalf of the head of the save queue; every other point by the running task itself.
 func (s *scheduler) owner(ev event, running *task) *task {
-	if strings.HasPrefix(ev.name, "fieldset.append.") && len(s.saveQ) > 0 {
-		return s.saveQ[0]
+	if strings.HasPrefix(ev.name, "fieldset.append.") {
+		for len(s.saveQ) > 0 {
+			c := s.saveQ[0]
+			// a queue member that finished, or is parked somewhere else, never asked for a save (the code departs from
+			// the model's step structure): it cannot be the one the SaveWriter is serving
+			if c.fin || (c.parked != nil && !strings.HasPrefix(c.parked.name, "fieldset.append.")) {
+				s.saveQ = s.saveQ[1:]
+				s.lost = append(s.lost, "save_expected_but_not_requested:"+c.kind)
+				continue
+			}
+			return c
+		}
 	}
 	return running
 }
@@ -588,6 +612,12 @@ func (s *scheduler) wait(t *task) error {
 				close(ev.release)
 				continue
 			}
+			if o.parked != nil {
+				// never lose a parked goroutine: an event that cannot be attributed is let through
+				s.lost = append(s.lost, "unattributed_event:"+ev.name)
+				close(ev.release)
+				continue
+			}
 			e := ev
 			o.parked = &e
 			if o == t {
@@ -599,10 +629,14 @@ func (s *scheduler) wait(t *task) error {
 			s.dequeue(t)
 			return nil
 		case <-time.After(stepTimeout):
-			return fmt.Errorf("task %s neither parked nor finished within %s", t.kind, stepTimeout)
+			return errStalled{fmt.Sprintf("task %s neither parked nor finished within %s", t.kind, stepTimeout)}
 		}
 	}
 }
+
+type errStalled struct{ msg string }
+
+func (e errStalled) Error() string { return e.msg }
 
 // kick releases t's parked event without waiting for what happens next (t is going to block behind another save)
 func (s *scheduler) kick(t *task) {
@@ -777,6 +811,9 @@ func (h *histRun) compare(i int, e *env, ex *obs, onImage bool, what string) *rt
 		return &r
 	}
 	for _, m := range []string{"m1", "m2"} {
+		if _, ok := ex.Mem[m]; !ok {
+			continue
+		}
 		for _, f := range []string{"f1", "f2"} {
 			if ro.schema[m][f] != ex.Mem[m][f] {
 				h.addDrift("schema_differs_from_model_mem")
@@ -892,13 +929,33 @@ func runHist(fc *fsCase, renv *rt.Env) rt.Result {
 		h.abandonLive()
 	}()
 	nontrivial := false
-	fail := func(r *rt.Result) rt.Result {
-		r.Evals = h.evals
+	collect := func(r *rt.Result) {
+		for _, d := range s.lost {
+			h.addDrift("schedule_differs_from_model:" + d)
+		}
+		r.Drift = nil
 		for d := range h.drift {
 			r.Drift = append(r.Drift, d)
 		}
 		sort.Strings(r.Drift)
+	}
+	fail := func(r *rt.Result) rt.Result {
+		r.Evals = h.evals
+		collect(r)
 		return *r
+	}
+	// a goroutine that neither parks nor finishes: the code departs from the model's step structure in a way the forced
+	// schedule cannot follow. That alone is drift: give the schedule up, let everything run out, cut the case short.
+	stalled := func(err error) rt.Result {
+		var es errStalled
+		if !errors.As(err, &es) {
+			return rt.Infra(err.Error())
+		}
+		s.giveUp("stalled:" + es.msg)
+		h.addDrift("forced_schedule_given_up_case_truncated")
+		r := rt.Result{OK: true, Evals: h.evals}
+		collect(&r)
+		return r
 	}
 	mismatch := func(t *task, want ...string) bool {
 		at := t.at()
@@ -927,7 +984,7 @@ func runHist(fc *fsCase, renv *rt.Env) rt.Result {
 			go func() { t.done <- sh.WritePoints(context.Background(), pts) }()
 			h.writers[st.W] = t
 			if err := s.advance(t); err != nil {
-				return rt.Infra(err.Error())
+				return stalled(err)
 			}
 			mismatch(t, "fieldset.create")
 		case "field":
@@ -952,7 +1009,7 @@ func runHist(fc *fsCase, renv *rt.Env) rt.Result {
 				}
 			}
 			if err := s.advance(t); err != nil {
-				return rt.Infra(err.Error())
+				return stalled(err)
 			}
 		case "save":
 			t := h.writers[st.W]
@@ -963,20 +1020,20 @@ func runHist(fc *fsCase, renv *rt.Env) rt.Result {
 				break
 			}
 			if err := s.wait(t); err != nil { // (a request that waited behind another one is served now)
-				return rt.Infra(err.Error())
+				return stalled(err)
 			}
 			if mismatch(t, "fieldset.append.before_write") {
 				s.dequeue(t)
 				break
 			}
 			if err := s.advance(t); err != nil { // the append itself
-				return rt.Infra(err.Error())
+				return stalled(err)
 			}
 			ok := !mismatch(t, "fieldset.append.after_write")
 			s.dequeue(t)
 			if ok {
 				if err := s.advance(t); err != nil {
-					return rt.Infra(err.Error())
+					return stalled(err)
 				}
 			}
 		case "ack":
@@ -988,7 +1045,7 @@ func runHist(fc *fsCase, renv *rt.Env) rt.Result {
 				mismatch(t, "shard.write.before_engine")
 			}
 			if err := s.finish(t); err != nil {
-				return rt.Infra(err.Error())
+				return stalled(err)
 			}
 			delete(h.writers, st.W)
 			gotDropped := 0
@@ -1027,7 +1084,7 @@ func runHist(fc *fsCase, renv *rt.Env) rt.Result {
 			h.mt = t
 			s.saveQ = append(s.saveQ, t)
 			if err := s.advance(t); err != nil {
-				return rt.Infra(err.Error())
+				return stalled(err)
 			}
 			mismatch(t, "fieldset.append.before_write")
 			nontrivial = true
@@ -1037,7 +1094,7 @@ func runHist(fc *fsCase, renv *rt.Env) rt.Result {
 				return rt.Infra("dlog without drop")
 			}
 			if err := s.finish(t); err != nil {
-				return rt.Infra(err.Error())
+				return stalled(err)
 			}
 			s.dequeue(t)
 			h.mt = nil
@@ -1052,7 +1109,7 @@ func runHist(fc *fsCase, renv *rt.Env) rt.Result {
 			h.mt = t
 			h.upState = false
 			if err := s.advance(t); err != nil {
-				return rt.Infra(err.Error())
+				return stalled(err)
 			}
 			if i+1 < len(fc.Steps) && fc.Steps[i+1].A == "c1" {
 				mismatch(t, "fieldset.compact.before_rename")
@@ -1060,7 +1117,7 @@ func runHist(fc *fsCase, renv *rt.Env) rt.Result {
 				if !t.fin {
 					mismatch(t)
 					if err := s.finish(t); err != nil {
-						return rt.Infra(err.Error())
+						return stalled(err)
 					}
 				}
 				h.mt = nil
@@ -1079,7 +1136,7 @@ func runHist(fc *fsCase, renv *rt.Env) rt.Result {
 				break
 			}
 			if err := s.advance(t); err != nil {
-				return rt.Infra(err.Error())
+				return stalled(err)
 			}
 			mismatch(t, "fieldset.compact.after_rename")
 		case "c2":
@@ -1089,7 +1146,7 @@ func runHist(fc *fsCase, renv *rt.Env) rt.Result {
 			}
 			if t.kind == "close" {
 				if err := s.finish(t); err != nil {
-					return rt.Infra(err.Error())
+					return stalled(err)
 				}
 				h.mt = nil
 				if t.err != nil {
@@ -1101,7 +1158,7 @@ func runHist(fc *fsCase, renv *rt.Env) rt.Result {
 				t.auto["fieldset.compact.before_rename"] = true
 				t.auto["fieldset.compact.after_rename"] = true
 				if err := s.advance(t); err != nil {
-					return rt.Infra(err.Error())
+					return stalled(err)
 				}
 			}
 		case "open":
@@ -1113,7 +1170,7 @@ func runHist(fc *fsCase, renv *rt.Env) rt.Result {
 				go func() { t.done <- e.open() }()
 				h.mt = t
 				if err := s.advance(t); err != nil {
-					return rt.Infra(err.Error())
+					return stalled(err)
 				}
 				mismatch(t, "fieldset.compact.before_rename")
 			}
@@ -1126,7 +1183,7 @@ func runHist(fc *fsCase, renv *rt.Env) rt.Result {
 						return rt.Infra("image: " + err.Error())
 					}
 					if err := os.WriteFile(idxlPath(dir), content, 0o666); err != nil {
-						return rt.Infra(err.Error())
+						return stalled(err)
 					}
 					if r := h.checkImage(i, dir, st.Exp, fmt.Sprintf("crash image with fields.idxl torn at byte %d (variant %d)", len(content), k)); r != nil {
 						r.Extra = map[string]interface{}{"torn_len": len(content)}
@@ -1146,7 +1203,7 @@ func runHist(fc *fsCase, renv *rt.Env) rt.Result {
 			} else {
 				t := h.mt
 				if err := s.finish(t); err != nil {
-					return rt.Infra(err.Error())
+					return stalled(err)
 				}
 				h.mt = nil
 				if t.err != nil {
@@ -1175,7 +1232,7 @@ func runHist(fc *fsCase, renv *rt.Env) rt.Result {
 			if inflight != nil {
 				before, _ := os.ReadFile(idxlPath(h.env.root))
 				if err := s.advance(inflight); err != nil {
-					return rt.Infra(err.Error())
+					return stalled(err)
 				}
 				after, _ := os.ReadFile(idxlPath(h.env.root))
 				if len(after) > len(before) && bytes.HasPrefix(after, before) {
@@ -1209,10 +1266,7 @@ func runHist(fc *fsCase, renv *rt.Env) rt.Result {
 		}
 	}
 	res := rt.Result{OK: true, Evals: h.evals, Nontrivial: nontrivial}
-	for d := range h.drift {
-		res.Drift = append(res.Drift, d)
-	}
-	sort.Strings(res.Drift)
+	collect(&res)
 	return res
 }
 
